@@ -171,9 +171,11 @@ def _mk_store(o):
 def _mk_percall(cid, o):
     c = pc.CARRIER[cid]
 
+    sub = [v_ for v_ in VALS if valid(o, v_)][:6] + [v_ for v_ in VALS if not valid(o, v_)][:4]
+
     def fn(vi: int, a: int, b: int):
-        assume(0 <= vi < len(VALS))
-        v = VALS[pc.pin(vi, 0, len(VALS) - 1)]
+        assume(0 <= vi < len(sub))
+        v = sub[pc.pin(vi, 0, len(sub) - 1)]
         _reset()
         before = FST.get_options()
         x = pc.Ctx(c)
@@ -225,5 +227,5 @@ for _o in NAMES + ['no_such_option']:
                       budget=900, per_path=60, out='threads (single-threaded symbolic executor); values outside the vocabulary', reset=_reset))
 for _cid, _o in (('ifbody3', 'trivia'), ('ifbody3', 'pep8space'), ('list4c', 'pars'), ('tuple3', 'norm'), ('list4c', 'raw'), ('ifbody3', 'elif_'), ('funcbody', 'docstr')):
     CELLS.append(Cell(f'P1.percall[{_cid},{_o}]', _mk_percall(_cid, _o), 'P', FNO + pc.FN_EDIT,
-                      f'carrier {_cid}; put_slice(code, a, b, {_o}=value) with value from the vocabulary and (a, b) over Z: defaults untouched afterwards (also on raise), per-call == per-block result, next call unaffected',
+                      f'carrier {_cid}; put_slice(code, a, b, {_o}=value) with value from 6 valid + 4 invalid vocabulary values and (a, b) over Z: defaults untouched afterwards (also on raise), per-call == per-block result, next call unaffected',
                       tier='quick' if (_cid, _o) in (('ifbody3', 'trivia'), ('list4c', 'pars')) else 'thorough', budget=900, per_path=60, reset=_reset))
